@@ -349,7 +349,7 @@ def _xfilter(accumulator, test_range, condition, operating_range):
         condition = condition.upper()
 
     @functools.lru_cache()
-    def check(value):
+    def _check(value, _type):  # `_type` keeps 1.0 and TRUE apart in the cache.
         if value is sh.EMPTY:  # A blank is an empty text without order.
             if ordering:
                 return False
@@ -357,6 +357,9 @@ def _xfilter(accumulator, test_range, condition, operating_range):
         if _get_type_id(value) != type_id:
             return False
         return operator(value.upper() if type_id == 1 else value, condition)
+
+    def check(value):
+        return _check(value, type(value))
 
     if is_number(condition):
         if 'num' not in test_range:
